@@ -168,6 +168,34 @@ Proof.
 Qed.
 Print Assumptions C16_former_witnesses.
 
+(* ---- the position an answer carries. Statement: the positions returned by a request that delivered nothing (page limit 0:
+   the client only moves the cursor) denote the event the cursor stands on: a request from them reads what the first
+   request would have read with a page. Refuted without RANGE: the journal iterator of the dependency does not update its
+   position when a backward Get pulled the chunk iterator from "end of the chunk" onto the chunk's last record (only Next
+   does): one partition [1,2,3], `tail OFFSET -1 LIMIT 0` returns the position (chunk, 3) = the end, and the request from there
+   reads nothing instead of [3]. With RANGE (/repo's own iterator) the position is (chunk, 2). *)
+Definition C16_position_statement : Prop := forall srcs f p offs,
+  srcs_ok srcs ->
+  match model_query srcs f p offs 0 with
+  | QOk _ ps => read srcs f (PAt ps) 0 = read srcs f p offs
+  | _ => True
+  end.
+
+Theorem C16_position_after_backward_refuted : ~ C16_position_statement.
+Proof.
+  intros H.
+  assert (Ok : srcs_ok [SJrn 0 false [(100, [(1, 1%nat); (2, 2%nat); (3, 3%nat)], (0, MaxU32))]]).
+  { split; [discriminate|]. repeat constructor; cbn; unfold chunk_ok, c_cnt, MaxU64, MaxU32; cbn; lia. }
+  specialize (H _ None PTail (-1) Ok). vm_compute in H. discriminate H.
+Qed.
+Print Assumptions C16_position_after_backward_refuted.
+
+Example C16_position_ranged :
+  let srcs := [SJrn 0 true [(100, [(1, 1%nat); (2, 2%nat); (3, 3%nat)], (0, MaxU32))]] in
+  let f := Some (mkFlt None 0 100) in
+  model_query srcs f PTail (-1) 0 = QOk [] [(0%nat, (100, 2))] /\ read srcs f (PAt [(0%nat, (100, 2))]) 0 = read srcs f PTail (-1).
+Proof. vm_compute. split; reflexivity. Qed.
+
 (* non-vacuity: a three-chunk journal with a filter; tail -2 in the model gives the last two accepted events *)
 Example C16_nonvacuous :
   let chunks := [(100, [(1, 1%nat); (2, 2%nat)], (0, MaxU32)); (110, [(3, 3%nat)], (0, MaxU32)); (125, [(4, 4%nat); (5, 5%nat); (6, 6%nat)], (0, MaxU32))] in
@@ -176,5 +204,5 @@ Example C16_nonvacuous :
 Proof. cbv zeta. split; [repeat constructor; cbn; unfold chunk_ok, c_cnt, MaxU64, MaxU32; cbn; lia|vm_compute; reflexivity]. Qed.
 
 (* the merge limit of the model is the limit newCursor passes to GetJournals now (coq/gen/Consts.v) *)
-Example C16_constants : merge_limit = go_cursorMaxSources.
-Proof. reflexivity. Qed.
+Example C16_constants : merge_limit = go_cursorMaxSources /\ MinTimestamp = go_MinTimestamp /\ MaxTimestamp = go_MaxTimestamp.
+Proof. repeat split; reflexivity. Qed.
